@@ -76,6 +76,11 @@ def cases(tier):
         for second in range(3):
             yield {"k": "refmeta", "first": first, "second": second}
     yield {"k": "refsrc"}
+    yield {"k": "bigtree", "w1": 40, "w2": 27}            # 1 121 nodes
+    if tier == "thorough":
+        yield {"k": "bigtree", "w1": 70, "w2": 35}        # 2 521 nodes
+    for depth in (9,) if tier == "quick" else (6, 9, 14):
+        yield {"k": "deepchain", "depth": depth}
 
 
 # ------------------------------------------------------------------ model of a forest
@@ -404,7 +409,146 @@ def run_refsrc(case, r):
         env.rm(path)
 
 
+def run_bigtree(case, r):
+    """trees that are NOT small: more than 1025 nodes (a wide level behind a wide level), searched with every limit"""
+    import nixio as nix
+    w1, w2 = case["w1"], case["w2"]
+    env.install_seams()
+    env.reset_execution()
+    path = env.fresh_path("c13b_")
+    f = nix.File.open(path, nix.FileMode.Overwrite)
+    try:
+        b = f.create_block("blk", "t")
+        for kind in ("sections", "sources"):
+            root = f.create_section("root", "t") if kind == "sections" else b.create_source("root", "t")
+            mk = (lambda p, n: p.create_section(n, "t")) if kind == "sections" else (lambda p, n: p.create_source(n, "t"))
+            levels = [[root.id], [], []]
+            for i in range(w1):
+                c1 = mk(root, "c%02d" % i)
+                levels[1].append(c1.id)
+            kids = list(root.sections) if kind == "sections" else list(root.sources)
+            for i, c1 in enumerate(kids):
+                for j in range(w2):
+                    levels[2].append(mk(c1, "g%02d" % j).id)      # the same names under every parent
+            for stage in ("in-session", "after-reopen"):
+                top = (f.sections["root"] if kind == "sections" else f.blocks["blk"].sources["root"])
+                finder = top.find_sections if kind == "sections" else top.find_sources
+                for limit in (None, 0, 1, 2, 3):
+                    r.evals += 1
+                    r.nontrivial += 1
+                    got = [e.id for e in (finder() if limit is None else finder(limit=limit))]
+                    depth = 2 if limit is None else min(limit, 2)
+                    exp = [i for lv in levels[:depth + 1] for i in lv]
+                    if got != exp:
+                        what = "%d results, expected %d" % (len(got), len(exp))
+                        if len(got) == len(exp):
+                            what = "same entities in another order" if sorted(got) == sorted(exp) else "other entities"
+                        elif len(set(got)) != len(got):
+                            what += " (%d reported more than once)" % (len(got) - len(set(got)))
+                        r.viol("C13|bigtree|%s|%s|limit-%s|wrong-result" % (kind, stage, limit),
+                               "search in a %s tree of %d nodes with limit %s: %s" % (kind, 1 + w1 + w1 * w2, limit, what), {})
+                        return
+                named = [e.id for e in finder(filtr=lambda e: e.name == "g01")]
+                r.evals += 1
+                if named != [levels[2][k * w2 + 1] for k in range(w1)]:
+                    r.viol("C13|bigtree|%s|%s|filter-by-name|wrong-result" % (kind, stage), "filter name == g01 gives %d results, expected %d in parent order" % (len(named), w1), {})
+                    return
+                if stage == "in-session":
+                    f.close()
+                    f = nix.File.open(path, nix.FileMode.ReadOnly)
+            f.close()
+            f = nix.File.open(path, nix.FileMode.ReadWrite)
+            b = f.blocks["blk"]
+        r.traces = 1
+    finally:
+        env.safe_close(f)
+        env.rm(path)
+
+
+def run_deepchain(case, r):
+    """a chain of equally named sections / sources 9 levels deep; every level is the metadata of some entity, and the
+    parent of a section is asked through the handle that the entity's metadata attribute hands out"""
+    import numpy as np
+    import nixio as nix
+    depth = case["depth"]
+    env.install_seams()
+    env.reset_execution()
+    path = env.fresh_path("c13d_")
+    f = nix.File.open(path, nix.FileMode.Overwrite)
+    try:
+        b = f.create_block("blk", "t")
+        secs, p = [], f
+        for i in range(depth):
+            p = p.create_section("s", "t")
+            secs.append(p.id)
+        other = f.create_section("other", "t")            # a sibling chain with the same names
+        q = other
+        for i in range(depth):
+            q = q.create_section("s", "t")
+        srcs, p = [], b
+        for i in range(depth):
+            p = p.create_source("s", "t")
+            srcs.append(p.id)
+        holders = []
+        da = b.create_data_array("d", "t", data=np.array([1.0]))
+        tag = b.create_tag("t", "t", [0.0])
+        mt = b.create_multi_tag("m", "t", da)
+        grp = b.create_group("g", "t")
+        deepest_src = f.blocks["blk"].find_sources()[-1]
+        for k, ent in enumerate([b, da, tag, mt, grp, b.sources["s"], deepest_src]):
+            lvl = depth - 1 - (k % 4)                          # levels depth-1 .. depth-4
+            target = f.find_sections(filtr=lambda e, i=secs[lvl]: e.id == i)[0]
+            ent.metadata = target
+            holders.append((type(ent).__name__, lvl))
+        da.sources.append(deepest_src)
+        for stage in ("in-session", "after-reopen"):
+            b = f.blocks["blk"]
+            ents = [b, b.data_arrays["d"], b.tags["t"], b.multi_tags["m"], b.groups["g"], b.sources["s"], b.find_sources()[-1]]
+            for (kname, lvl), ent in zip(holders, ents):
+                r.evals += 1
+                r.nontrivial += 1
+                m_ = ent.metadata
+                chain = []
+                cur = m_
+                while cur is not None and len(chain) <= depth + 1:
+                    chain.append(cur.id)
+                    cur = cur.parent
+                exp = [secs[i] for i in range(lvl, -1, -1)]
+                if chain != exp:
+                    r.viol("C13|deepchain|%s|metadata-of-%s|level-%d|wrong-parent-chain" % (stage, kname, lvl + 1),
+                           "section at level %d reached through the metadata of a %s: parent chain has %d entries (%s), expected %d up to the root" % (
+                               lvl + 1, kname, len(chain), "right prefix" if chain == exp[:len(chain)] else "wrong entities", len(exp)), {})
+                    return
+            # sources: parent_source of the deepest source through tree handle and through the array's source list
+            for hname, h in (("tree-handle", b.find_sources()[-1]), ("link-list-handle", b.data_arrays["d"].sources[0])):
+                r.evals += 1
+                chain = []
+                cur = h
+                while cur is not None and len(chain) <= depth + 1:
+                    chain.append(cur.id)
+                    cur = cur.parent_source
+                if chain != srcs[::-1] or h.parent_block.id != b.id:
+                    r.viol("C13|deepchain|%s|source|%s|wrong-parent-chain" % (stage, hname),
+                           "deepest source (%s): parent_source chain has %d entries, expected %d" % (hname, len(chain), depth), {})
+                    return
+            if stage == "in-session":
+                f.close()
+                f = nix.File.open(path, nix.FileMode.ReadOnly)
+        r.traces = 1
+    finally:
+        env.safe_close(f)
+        env.rm(path)
+
+
 def run_case(case):
+    if case["k"] == "bigtree":
+        r = R()
+        run_bigtree(case, r)
+        return r
+    if case["k"] == "deepchain":
+        r = R()
+        run_deepchain(case, r)
+        return r
     r = R()
     {"forest": run_forest, "refmeta": run_refmeta, "refsrc": run_refsrc}[case["k"]](case, r)
     return r
